@@ -35,6 +35,8 @@ def gc_m(a: Tuple[float, float], b: Tuple[float, float]) -> float:
 def st_graph(draw, min_nodes: int = 4, max_nodes: int = 12, varied_speed: bool = True, arbitrary_lengths: bool = False,
              scales: Tuple[int, ...] = (1,), block_times: bool = False, parallel: bool = False) -> Dict[str, Any]:
     n = draw(st.integers(min_nodes, max_nodes))
+    # junction ids are free input data: re-indexed graphs count from 0, OSM extracts use large ids
+    id0 = draw(st.sampled_from([100, 100, 0, 176090000]))
     side = math.ceil(math.sqrt(n))
     jit = st.integers(-8, 8)
     # geographic scale: 1 = a downtown of ~1.5 km (entity sites fit on it), larger = towns / regions of 5-60 km, where
@@ -44,7 +46,7 @@ def st_graph(draw, min_nodes: int = 4, max_nodes: int = 12, varied_speed: bool =
     for i in range(n):
         la = LAT0 + scale * (0.0035 * (i // side) + draw(jit) * 0.0001)
         lo = LON0 + scale * (0.0045 * (i % side) + draw(jit) * 0.0001)
-        nodes.append([100 + i, round(la, 6), round(lo, 6)])
+        nodes.append([id0 + i, round(la, 6), round(lo, 6)])
     perm = draw(st.permutations(list(range(n))))
     pairs = {(perm[i], perm[(i + 1) % n]) for i in range(n)}
     extra = draw(st.lists(st.tuples(st.integers(0, n - 1), st.integers(0, n - 1), st.booleans()), max_size=2 * n))
@@ -60,14 +62,14 @@ def st_graph(draw, min_nodes: int = 4, max_nodes: int = 12, varied_speed: bool =
         # between the junctions (C13/C14 quantify over arbitrary lengths); movement checks keep physical lengths
         stretch = draw(st.sampled_from([0.3, 0.6, 1.0, 1.0, 1.1, 1.3, 1.6, 2.5] if arbitrary_lengths else [1.0, 1.0, 1.1, 1.3, 1.6]))
         speed = draw(st.sampled_from(SPEEDS + [None])) if varied_speed else draw(st.sampled_from([40, None]))
-        e = [100 + a, 100 + b, round(base * stretch, 3), speed]
+        e = [id0 + a, id0 + b, round(base * stretch, 3), speed]
         if block_times:
             # a regular city: every link takes a whole multiple of 15 s at a whole number of m/s, so journeys between
             # junctions end exactly when a time step ends (the boundary case of every arrival rule)
             # (lengths stay physical: at least the straight line between the junctions)
             ms = draw(st.sampled_from([5, 10, 10, 15, 20]))
             blocks = math.ceil(base / (ms * 15.0)) + draw(st.sampled_from([0, 0, 1]))
-            e = [100 + a, 100 + b, ms * 15 * blocks + 0.01, ms * 3.6]
+            e = [id0 + a, id0 + b, ms * 15 * blocks + 0.01, ms * 3.6]
         if arbitrary_lengths and draw(st.sampled_from([False, False, True])):
             # an explicit travel_time attribute (as in the shipped Denver file), not necessarily length / speed
             e.append(round(base / 1000.0 / (speed or 40) * 3600.0 * draw(st.sampled_from([0.5, 1.0, 2.0])), 3))
@@ -126,6 +128,20 @@ def denver_network(default_speed_kmph: float = 40.0, res: int = 15):
     if k not in _DENVER_CACHE:
         _DENVER_CACHE[k] = build_network("denver", default_speed_kmph, res)
     return _DENVER_CACHE[k]
+
+
+def edge_table_from_input(spec_or_denver, default_speed_kmph: float = 40.0) -> Dict[Tuple[int, int], Dict[str, float]]:
+    """min-travel-time edge per ordered node pair computed from the *input data* (not from what the network stored after
+    loading it): travel_time if the edge carries one, else length / speed (speed_kmph or the default speed)"""
+    nl = json.loads(DENVER_JSON.read_text()) if spec_or_denver == "denver" else graph_to_node_link(spec_or_denver)
+    t: Dict[Tuple[int, int], Dict[str, float]] = {}
+    for d in nl["links"]:
+        speed = float(d.get("speed_kmph", default_speed_kmph))
+        tt = float(d["travel_time"]) if "travel_time" in d else (d["length"] / 1000) / speed * 3600
+        k = (d["source"], d["target"])
+        if k not in t or tt < t[k]["travel_time"]:
+            t[k] = {"travel_time": tt, "length": float(d["length"]), "speed_kmph": speed}
+    return t
 
 
 def edge_table(rn) -> Dict[Tuple[int, int], Dict[str, float]]:
